@@ -23,6 +23,8 @@ ROOT = os.path.dirname(os.path.dirname(os.path.abspath(__file__)))
 COQ = os.path.join(ROOT, "coq")
 HARNESS = os.path.join(ROOT, "harness")
 REPO = os.environ.get("VERIF_REPO", "/repo")
+# evidence/ and replays/ describe runs on /repo only; a run on a scratch copy (self-validation) writes under out/alt
+RESULTS = ROOT if REPO == "/repo" else os.path.join(ROOT, "out", "alt")
 sys.path.insert(0, os.path.join(ROOT, "tools"))
 from props import PROPS, TRUSTED_GLOBAL, ALLOWED_AXIOMS  # noqa: E402
 
@@ -142,16 +144,21 @@ def harness_build(name):
 
 
 def harness_build_(name):
-    shutil.copyfile(os.path.join(REPO, "go.sum"), os.path.join(HARNESS, "go.sum"))
-    gomod = os.path.join(HARNESS, "go.mod")
-    if REPO != "/repo":
-        src = open(gomod).read()
-        open(gomod, "w").write(re.sub(r"=> \S+", "=> " + REPO, src))
+    """Builds the driver against REPO's working tree.  For the registered checks REPO is /repo (go.mod's replace line).
+    The self-validation tools (tools/seedrun.py) point VERIF_REPO at a scratch copy: the build then uses a module file
+    of its own under out/altmod (go build -modfile), so neither /repo nor harness/go.mod is ever rewritten."""
     os.makedirs(os.path.join(HARNESS, "bin"), exist_ok=True)
-    rc, out, dt = sh(["go", "build", "-tags", "verif", "-o", "bin/" + name, "./" + name], cwd=HARNESS,
-                     timeout=1500, env=GOENV)
-    if REPO != "/repo":
-        open(gomod, "w").write(src)
+    cmd = ["go", "build", "-tags", "verif"]
+    if REPO == "/repo":
+        shutil.copyfile(os.path.join(REPO, "go.sum"), os.path.join(HARNESS, "go.sum"))
+    else:
+        alt = os.path.join(ROOT, "out", "altmod")
+        os.makedirs(alt, exist_ok=True)
+        src = open(os.path.join(HARNESS, "go.mod")).read()
+        open(os.path.join(alt, "go.mod"), "w").write(re.sub(r"=> \S+", "=> " + REPO, src))
+        shutil.copyfile(os.path.join(REPO, "go.sum"), os.path.join(alt, "go.sum"))
+        cmd.append("-modfile=" + os.path.join(alt, "go.mod"))
+    rc, out, dt = sh(cmd + ["-o", "bin/" + name, "./" + name], cwd=HARNESS, timeout=1500, env=GOENV)
     return rc, out, dt
 
 
@@ -213,8 +220,8 @@ def main():
     outdir = os.path.join(ROOT, "out", pid)
     shutil.rmtree(outdir, ignore_errors=True)
     os.makedirs(outdir, exist_ok=True)
-    os.makedirs(os.path.join(ROOT, "evidence"), exist_ok=True)
-    os.makedirs(os.path.join(ROOT, "replays"), exist_ok=True)
+    os.makedirs(os.path.join(RESULTS, "evidence"), exist_ok=True)
+    os.makedirs(os.path.join(RESULTS, "replays"), exist_ok=True)
     n = P["n"][tier]
     only_idx = None
     if replay:
@@ -308,7 +315,7 @@ def main():
             pick = min(orac_fail, key=size)
         elif corr_fail:
             pick = min(corr_fail, key=size)
-        rp = os.path.join(ROOT, "replays", "%s-seed%d-%s.json" % (pid, seed, tier))
+        rp = os.path.join(RESULTS, "replays", "%s-seed%d-%s.json" % (pid, seed, tier))
         R = {"property": pid, "seed": seed, "tier": tier, "n": n,
              "broken_obligations": [{"name": o[0], "kind": o[1], "detail": o[3]} for o in broken],
              "replay_cmd": "python3 tools/check.py %s --replay %s" % (pid, os.path.relpath(rp, ROOT))}
@@ -354,7 +361,7 @@ def main():
     }
     if notes:
         ev["coverage"]["notes"] = notes
-    json.dump(ev, open(os.path.join(ROOT, "evidence", pid + ".json"), "w"), indent=1)
+    json.dump(ev, open(os.path.join(RESULTS, "evidence", pid + ".json"), "w"), indent=1)
     print("%s %s: %d/%d obligations discharged, %d cases (%d distinct non-trivial), %.1fs" % (
         pid, tier, ev["coverage"]["discharged"], ev["coverage"]["obligations"],
         ev["coverage"]["evaluations"], ev["coverage"]["distinct_nontrivial"], wall))
